@@ -7,7 +7,7 @@ use crate::{prng::Rng, props::hist, rawdump::{parse_bnode, Raw}, util::Out};
 use parity_db::{Db, Operation};
 use std::collections::BTreeMap;
 
-fn dump_node(raw: &mut Raw, col: u8, rc: bool, addr: u64, depth: u32, keys: &Vec<Vec<u8>>, out: &mut Vec<u64>, budget: &mut u32) -> bool {
+pub fn dump_node(raw: &mut Raw, col: u8, rc: bool, addr: u64, depth: u32, keys: &Vec<Vec<u8>>, out: &mut Vec<u64>, budget: &mut u32) -> bool {
 	if *budget == 0 {
 		return false
 	}
